@@ -9,6 +9,7 @@ CONSTANTS
   MaxParse = 1
   Family = "c16"
   Reconfigure = FALSE
+  Small = FALSE
   Emit = TRUE
 INVARIANTS
   Inv_ExpectIff
